@@ -43,6 +43,39 @@ theorem parabolic_height' (y0 y1 y2 : Rat) (h0 : y0 < y1) (h2 : y2 < y1) :
     div_nonneg (sq_nonneg _) (by linarith)
   linarith
 
+theorem parabolic_height_eq (y0 y1 y2 : Rat) (h0 : y0 < y1) (h2 : y2 < y1) :
+    (parabolic y0 y1 y2).2 = y1 - (y0 - y2) ^ 2 / (8 * (y0 - 2 * y1 + y2)) := by
+  have hd : y0 - 2 * y1 + y2 < 0 := by linarith
+  have hd' : y0 - 2 * y1 + y2 ≠ 0 := ne_of_lt hd
+  have ha' : y0 / 2 - y1 + y2 / 2 ≠ 0 := by intro h; apply hd'; linarith
+  simp only [parabolic]
+  field_simp
+  ring
+
+/-- a strict extremum is moved (location and height) exactly when its neighbours differ — at any amplitude -/
+theorem parabolic_moves_iff (y0 y1 y2 : Rat) (h0 : y0 < y1) (h2 : y2 < y1) :
+    ((parabolic y0 y1 y2).1 = 0 ↔ y0 = y2) ∧ ((parabolic y0 y1 y2).2 = y1 ↔ y0 = y2) := by
+  have hd : y0 - 2 * y1 + y2 < 0 := by linarith
+  have hd' : y0 - 2 * y1 + y2 ≠ 0 := ne_of_lt hd
+  constructor
+  · rw [parabolic_offset y0 y1 y2 h0 h2, div_eq_zero_iff]
+    constructor
+    · rintro (h | h)
+      · linarith
+      · exfalso; apply hd'; linarith
+    · intro h; left; linarith
+  · rw [parabolic_height_eq y0 y1 y2 h0 h2]
+    constructor
+    · intro h
+      have h1 : (y0 - y2) ^ 2 / (8 * (y0 - 2 * y1 + y2)) = 0 := by linarith
+      rw [div_eq_zero_iff] at h1
+      rcases h1 with h1 | h1
+      · have := pow_eq_zero_iff (n := 2) (by norm_num) |>.mp h1
+        linarith
+      · exfalso; apply hd'; linarith
+    · intro h
+      rw [h]; simp
+
 /-! ### shape of the raw extrema lists -/
 
 /-- the signal whose strict maxima the mode looks for -/
